@@ -84,6 +84,7 @@ edit(DEC, [
     # ---- initialize_new_thread / get_thread
     # announced BEFORE pthread_create so that the new worker's first event never precedes it
     ("\tif (mythread_create(&thr->thread_id, worker_decoder, thr))", "before", ev(1, 124, "thr", "coder->threads_initialized")),
+    ("\t// If there is a free structure on the stack, use it.\n\tmythread_sync(coder->mutex) {\n", "after", ev(2, 126, "coder->threads_free", "coder->threads_free != NULL")),
     ("\t\t\tcoder->mem_cached -= coder->thr->mem_filters;\n", "after", ev(3, 125, "coder->thr")),
     # ---- read_output_and_wait
     ("\tlzma_ret ret = LZMA_OK;\n\n\tmythread_sync(coder->mutex) {\n\t\tdo {", "before",
@@ -112,6 +113,7 @@ edit(DEC, [
     ("\t\tcoder->thr->outbuf = lzma_outq_get_buf(\n\t\t\t\t&coder->outq, coder->thr);\n", "after", ev(2, 111, "coder->thr", "coder->thr->in_size", "coder->thr->outbuf->allocated")),
     ("\t\t\tcoder->thr->state = THR_RUN;\n", "after", ev(3, 112, "coder->thr")),
     ("\t\t\tlzma_outq_enable_partial_output(&coder->outq,\n\t\t\t\t\t&worker_enable_partial_update);", "before", ev(3, 113)),
+    ("\t\tcoder->sequence = SEQ_BLOCK_THR_RUN;\n", "before", ev(2, 127)),
     ("\t\t// Tell the thread how much we copied.\n", "before", ev(2, 114, "coder->thr", "cur_in_filled", "*in_pos == in_size", "coder->thr->in_size")),
     ("\t\t\tcoder->thr->in_filled = cur_in_filled;\n", "after", ev(3, 115, "coder->thr", "cur_in_filled")),
     ("\t\t// Return if the input didn't contain the whole Block.\n", "before", ev(2, 116, "coder->thr", "coder->thr->in_filled < coder->thr->in_size", "coder->pending_error")),
